@@ -147,3 +147,139 @@ class Token:
 
     def __repr__(self):
         return f"<{self.name}>"
+
+
+# ---------------------------------------------------------------------------------------------
+# scipy.interpolate.interp1d contract stub
+# ---------------------------------------------------------------------------------------------
+import z3 as _z3
+import numpy as _np
+
+_NOFILL = object()
+
+
+class Interp1dStub:
+    """Assumed contract of scipy.interpolate.interp1d(x, y, kind, fill_value, bounds_error).
+
+    mode 'uf'    : the interpolant is an uninterpreted function of the query (one per instance);
+                   only the call site (knots, kind, fill, bounds_error) and the query are observable.
+    mode 'linear': kind='linear' semantics on strictly monotonic knots: exact at knots, linear between
+                   neighbours; outside the knot range ValueError unless bounds_error=False, then
+                   fill_value (scalar, (below, above) pair, or "extrapolate").
+    """
+    instances = []
+    mode = 'uf'
+
+    def __init__(self, x, y, kind='linear', fill_value=_NOFILL, bounds_error=None, **kw):
+        self.x = list(x)
+        self.y = list(y)
+        self.kind = kind
+        self.fill_value = fill_value
+        self.bounds_error = bounds_error
+        self.kw = kw
+        self.queries = []
+        self.results = []
+        self.id = len(Interp1dStub.instances)
+        Interp1dStub.instances.append(self)
+        self.uf = _z3.Function(f"interp{self.id}", _z3.RealSort(), _z3.RealSort())
+
+    def __call__(self, q):
+        arr = _np.asarray(q, dtype=object)
+        if arr.ndim == 0:
+            r = self._one(arr.item())
+            out = _np.empty((), dtype=object)
+            out[()] = r
+            return out
+        out = _np.empty(arr.shape, dtype=object)
+        for i, v in enumerate(arr.flat):
+            out.flat[i] = self._one(v)
+        return out
+
+    def _one(self, q):
+        self.queries.append(q)
+        if Interp1dStub.mode == 'uf':
+            # opaque result: a fresh real per call, recorded with its argument (keeps queries pure NRA;
+            # "same argument -> same result" is not needed by any obligation that uses this mode)
+            r = sx.cur().fresh(f'interp{self.id}_')
+            self.results.append((q, r))
+            return r
+        return self._linear(q)
+
+    def _linear(self, q):
+        if self.kind != 'linear':
+            raise sx.Unsupported(f"interp1d kind {self.kind!r} has no contract in the stub")
+        x, y = self.x, self.y
+        n = len(x)
+        if n < 2:
+            raise ValueError("x and y arrays must have at least 2 entries")
+        asc = bool(x[0] < x[-1])
+        lo, hi = (x[0], x[-1]) if asc else (x[-1], x[0])
+        ylo, yhi = (y[0], y[-1]) if asc else (y[-1], y[0])
+        filled = self.bounds_error is False and self.fill_value is not _NOFILL
+        if bool(q < lo):
+            if not filled:
+                raise ValueError("A value in x_new is below the interpolation range.")
+            return self._fill(q, 0, asc)
+        if bool(q > hi):
+            if not filled:
+                raise ValueError("A value in x_new is above the interpolation range.")
+            return self._fill(q, 1, asc)
+        for i in range(n - 1):
+            a, b = (x[i], x[i + 1]) if asc else (x[i + 1], x[i])
+            ya, yb = (y[i], y[i + 1]) if asc else (y[i + 1], y[i])
+            if bool(q >= a) and bool(q <= b):
+                return ya + (yb - ya) * (q - a) / (b - a)
+        raise sx.Unsupported("interp1d stub: query not located (non-monotonic knots?)")
+
+    def _fill(self, q, side, asc):
+        fv = self.fill_value
+        if isinstance(fv, str) and fv == 'extrapolate':
+            x, y = self.x, self.y
+            if (side == 0) == asc:
+                a, b, ya, yb = x[0], x[1], y[0], y[1]
+            else:
+                a, b, ya, yb = x[-2], x[-1], y[-2], y[-1]
+            return ya + (yb - ya) * (q - a) / (b - a)
+        if isinstance(fv, (tuple, list)):
+            return fv[side]
+        return fv
+
+
+class ModelStub:
+    """contract of an isotherm model as seen by ModelIsotherm: loading(p), pressure(n), spreading_pressure(p)
+    are (uninterpreted) functions of their argument; every call is recorded."""
+
+    def __init__(self, calculates='loading', name='StubModel'):
+        self.name = name
+        self.calculates = calculates
+        self.calls = []
+        self.results = []
+        self.pressure_range = (0.1, 10)
+        self.loading_range = (0.1, 10)
+        self.L = _z3.Function('model_loading', _z3.RealSort(), _z3.RealSort())
+        self.Pf = _z3.Function('model_pressure', _z3.RealSort(), _z3.RealSort())
+        self.S = _z3.Function('model_spreading', _z3.RealSort(), _z3.RealSort())
+
+    def _ap(self, f, x, what):
+        arr = _np.asarray(x, dtype=object)
+        self.calls.append((what, x))
+        eng = sx.cur()
+        if arr.ndim == 0:
+            r = eng.fresh(what + '_')
+            self.results.append((what, arr.item(), r))
+            return r
+        out = _np.empty(arr.shape, dtype=object)
+        for i, v in enumerate(arr.flat):
+            r = eng.fresh(what + '_')
+            self.results.append((what, v, r))
+            out.flat[i] = r
+        return out
+
+    def loading(self, p):
+        return self._ap(self.L, p, 'loading')
+
+    def pressure(self, n):
+        return self._ap(self.Pf, n, 'pressure')
+
+    def spreading_pressure(self, p):
+        return self._ap(self.S, p, 'spreading_pressure')
